@@ -588,12 +588,23 @@ impl DeriveShape for Expression {
             Expression::Binary(def) => {
                 let left_shape = def.left.derive_shape(symbol_table);
                 if def.kind == BinaryExprType::DOT {
-                    let shape =
+                    let mut shape =
                         derive_dot_expression(&def.pos, &left_shape, &def.right, symbol_table);
                     // Update the symbol table with the inferred left shape
                     if let Expression::Simple(Value::Symbol(pi)) = def.left.as_ref() {
                         if let Shape::TypeErr(_, _) = &shape {
-                            // Don't update symbol table on type errors
+                            // A tuple shape that was itself inferred from an earlier
+                            // `param.field` only lists the fields seen so far: a new
+                            // field extends it instead of being an error.
+                            if let Some(extended) =
+                                extend_inferred_tuple(&left_shape, &def.right)
+                            {
+                                symbol_table.insert(pi.val.clone(), extended);
+                                shape = Shape::Narrowed(NarrowedShape {
+                                    pos: def.pos.clone(),
+                                    types: NarrowingShape::Any,
+                                });
+                            }
                         } else {
                             if let Shape::Hole(_) = &left_shape {
                                 let inferred = infer_container_shape_from_dot(
@@ -751,6 +762,46 @@ fn infer_container_shape_from_dot(
         }),
         _ => left_shape.clone(),
     }
+}
+
+/// The tuple shape `infer_container_shape_from_dot` gives a hole lists only
+/// the fields selected so far, each unconstrained and positioned at the hole.
+/// For such a shape, return it extended by the first field `right_expr` selects.
+fn extend_inferred_tuple(left_shape: &Shape, right_expr: &Expression) -> Option<Shape> {
+    let tshape = match left_shape {
+        Shape::Tuple(tshape) if !tshape.val.is_empty() => tshape,
+        _ => return None,
+    };
+    let inferred = tshape.val.iter().all(|(_, s)| {
+        matches!(s, Shape::Narrowed(NarrowedShape { pos, types: NarrowingShape::Any }) if *pos == tshape.pos)
+    });
+    if !inferred {
+        return None;
+    }
+    let accessor = match right_expr {
+        Expression::Binary(BinaryOpDef {
+            kind: BinaryExprType::DOT,
+            left,
+            ..
+        }) => left.as_ref(),
+        other => other,
+    };
+    let field = match accessor {
+        Expression::Simple(Value::Symbol(pi)) | Expression::Simple(Value::Str(pi)) => pi,
+        _ => return None,
+    };
+    if tshape.val.iter().any(|(name, _)| name.val == field.val) {
+        return None;
+    }
+    let mut fields = tshape.val.clone();
+    fields.push((
+        PositionedItem::new(field.val.clone(), field.pos.clone()),
+        Shape::Narrowed(NarrowedShape {
+            pos: tshape.pos.clone(),
+            types: NarrowingShape::Any,
+        }),
+    ));
+    Some(Shape::Tuple(PositionedItem::new(fields, tshape.pos.clone())))
 }
 
 fn derive_dot_expression(
